@@ -245,6 +245,11 @@ def mutations(e):
         if len(e[1]) > 1: out.append(('compose', e[1][:-1]))
         x, lo, hi = e[1][0]
         out.append(('compose', ((x, lo, hi),) + e[1]))
+        # same slot count and slot starts, another end of the last slot (narrower last part / wider last part)
+        xl, lol, hil = e[1][-1]
+        if hil - lol > 1:
+            out.append(('compose', e[1][:-1] + ((('slice', xl, 0, hil - lol - 1), lol, hil - 1),)))
+        out.append(('compose', e[1][:-1] + ((('compose', ((xl, 0, hil - lol), (('int', 8, 0), hil - lol, hil - lol + 8))), lol, hil + 8),)))
     elif k == 'cond':
         out.append(('cond', e[1], e[3], e[2]))
         for mx in mutations(e[2])[:1]: out.append(('cond', e[1], mx, e[3]))
